@@ -32,12 +32,14 @@ class RaiseCase:
 class LoopSpec:
 
   def __init__(self, invariants, havoc=None, keep=None, decreases=None,
-               ghost_step=None, unroll=False):
+               ghost_step=None, unroll=False, ghost=None, after=None):
     self.invariants = list(invariants)   # [Clause] ; fn(ctx, k)
     self.havoc = havoc      # extra names to havoc
     self.keep = keep        # names NOT to havoc although syntactically assigned
     self.decreases = decreases
-    self.ghost_step = ghost_step  # callable(ctx, k) run after the body (ghost code)
+    self.ghost_step = ghost_step  # callable(ex, ctx, k): ghost code after the body
+    self.ghost = ghost or []      # ghost variables the ghost code updates
+    self.after = after            # callable(ex, ctx): ghost code at loop exit
     self.unroll = unroll
 
 
@@ -82,6 +84,7 @@ class Contract:
     self.skip_proof = None             # reason when no proof is attempted
     self.setup = None                  # callable(exec, ctx): extra env set-up
     self.local_kinds = {}              # local variable name -> kind
+    self.ghost_vars = {}               # ghost variable -> init(ctx) -> wrapper
     self.modifies_self = []            # fields of `self` a method may change
     self.may_raise_other = False       # callers must expect unlisted exceptions
 
